@@ -109,8 +109,11 @@ def deliver(stream, cuts, state='ESTABLISHED'):
     writes = tuple(m[:3] for _, d in t.writes[nw0:] for m in wire.abstract_writes(d))
     closed = t.lose_time is not None
     p = t.protocol
+    # timers (relative to now: virtual time does not advance between the chunks) and the receive counters belong to "its reaction"
+    residue = (tuple(sorted((dc.name, round(dc.time - w.sim.now, 6)) for dc in w.sim.calls)),
+               tuple(sorted(p.msg_recv_stat.items())), tuple(sorted(p.msg_sent_stat.items())))
     outcome = (tuple(cbs), writes, closed, w.reported_state(),
-               bytes(p._receive_buffer) if not closed else b'')
+               bytes(p._receive_buffer) if not closed else b'', residue)
     return outcome, over, excs
 
 
@@ -170,7 +173,7 @@ def _cb_match(names, pattern):
 
 
 def matches_ref(outcome, ref):
-    cbs, writes, closed, state, buf = outcome
+    cbs, writes, closed, state, buf = outcome[:5]
     names = [c[0] for c in cbs if c[0] not in ('on_established',)]
     for pat, notif, cl in ref:
         if closed != cl:
@@ -232,7 +235,7 @@ def check_stream(names, level, state='ESTABLISHED', with_ref=True):
                                  {'stream': label, 'hex': stream.hex()[:400], 'want': ref,
                                   'got': {'callbacks': [c[0] for c in out[0]], 'writes': out[1], 'closed': out[2]}}))
         elif out != base:
-            what = [n for n, (a, b) in zip(('callbacks', 'writes', 'closed', 'state', 'buffer'), zip(out, base)) if a != b]
+            what = [n for n, (a, b) in zip(('callbacks', 'writes', 'closed', 'state', 'buffer', 'timers-or-counters'), zip(out, base)) if a != b]
             viol.append(('C04|a|outcome depends on segmentation (%s)|%s' % (','.join(what), classify(names)),
                          {'stream': label, 'hex': stream.hex()[:400], 'cuts': cuts, 'kind': kind,
                           'whole': {'callbacks': [c[0] for c in base[0]], 'writes': base[1], 'closed': base[2], 'state': base[3]},
@@ -310,7 +313,7 @@ def task_axis(args):
         classes.add((kind, ty if kind == 'length' else tc, lc, outs[0][1], outs[0][2]))
         if any(o != outs[0] for o in outs[1:]):
             v.append(('C04|a|outcome depends on segmentation|axis %s %s %s' % (kind, tc, lc), {'type': ty, 'length': L}))
-        cbs, writes, closed, state, buf = outs[0]
+        cbs, writes, closed, state, buf = outs[0][:5]
         frames, err, rest = wire.deframe(stream)
         if err is not None and err[0] in (1, 2, 3):
             if writes != (('NOTIF', 1, err[0]),) or not closed or cbs:
